@@ -1,12 +1,17 @@
 /-
 C16 — Owned snapshots and wire round-trips are equivalent to borrowed page ranges.
-In a functional model a page range is a value `(start, end, digest)`: borrowed ranges, ranges
-rebuilt from their accessor values and owned snapshots are the same value, so equality and
-`diff` congruence hold by construction. What remains to prove is that rebuilding never panics.
-"A snapshot keeps describing the tree as it was" is ownership/aliasing — modelled, not proved;
-it is decided by the `snap` correspondence stream (DESIGN §7 C16).
+`src/diff/page_range_snapshot.rs` is modelled in `Model/Snapshot.lean`: `OwnedPageRange` (with the
+assertion of `new`), `PageRangeSnapshot`, the four conversions, `iter()` (which rebuilds every range
+through `PageRange::new` and so re-asserts `start <= end`), the derived `Clone` / `clone_from` /
+`PartialEq`, and a tree that keeps a snapshot while it is written to (`Served`).
+What a functional model cannot express is ALIASING: that the Rust snapshot shares no memory with the
+tree is a fact about ownership (the snapshot clones the keys), decided by the `snap` correspondence
+stream with real `PageRangeSnapshot` objects kept across later upserts (DESIGN §7 C16); the theorems
+below prove everything else — in particular that the snapshot VALUE taken from a reachable tree keeps
+yielding the page ranges of the tree as it was, for every continuation of upserts.
 -/
 import MstVerif.Proofs.DiffList
+import MstVerif.Proofs.Snapshot
 
 namespace Mst.Props
 open Mst
@@ -41,5 +46,59 @@ theorem C16_diff (l p : List (PR K D)) (hl : PRValid l) (hp : PRValid p) :
   rw [C16_roundtrip p hp] at h2
   cases h1; cases h2
   exact ⟨rfl, rfl, rfl⟩
+
+/-! ### Owned ranges and snapshots (`Model/Snapshot.lean`) -/
+
+omit [DecidableEq D] in
+/-- An owned snapshot of well-formed ranges iterates to exactly those ranges, without panicking;
+the route through `OwnedPageRange::new` on the accessor values gives the same owned ranges as
+`From<PageRange>`, and the two ways of collecting a snapshot agree (also under `==`). -/
+theorem C16_snapshot_roundtrip (l : List (PR K D)) (h : PRValid l) :
+    (Snapshot.ofRanges l).iter = .ok l ∧
+    (∀ r ∈ l, OwnedPR.new r.start r.end_ r.hash = .ok (OwnedPR.ofPR r)) ∧
+    Snapshot.ofOwned (l.map OwnedPR.ofPR) = Snapshot.ofRanges l :=
+  ⟨Snapshot.iter_ofRanges l h, fun r hr => OwnedPR.new_of_valid r (h r hr), rfl⟩
+
+omit [DecidableEq D] in
+/-- `OwnedPageRange::new` rejects exactly `start > end`. -/
+theorem C16_owned_constructor (s e : K) (h : D) : (∃ o, OwnedPR.new s e h = .ok o) ↔ s ≤ e :=
+  OwnedPR.new_ok_iff s e h
+
+/-- The diff computed from snapshots (either or both sides) is the diff of the borrowed ranges. -/
+theorem C16_snapshot_diff (l p : List (PR K D)) (hl : PRValid l) (hp : PRValid p) :
+    ∀ l' p', (Snapshot.ofRanges l).iter = .ok l' → (Snapshot.ofRanges p).iter = .ok p' →
+      diff l' p' = diff l p ∧ diff l' p = diff l p ∧ diff l p' = diff l p := by
+  intro l' p' h1 h2
+  rw [Snapshot.iter_ofRanges l hl] at h1
+  rw [Snapshot.iter_ofRanges p hp] at h2
+  cases h1; cases h2
+  exact ⟨rfl, rfl, rfl⟩
+
+omit [LinearOrder K] [DecidableEq D] in
+/-- `clone` and `clone_from` (into ANY existing snapshot, longer or shorter) yield the source. -/
+theorem C16_snapshot_clone (dst src : Snapshot K D) : src.clone = src ∧ dst.cloneFrom src = src :=
+  ⟨rfl, rfl⟩
+
+/-- A snapshot keeps describing the tree as it was when taken: take a snapshot of a tree in ANY
+reachable state (hash, serialise, own), then run ANY continuation of upserts — nothing panics, the
+snapshot is untouched, and iterating it still yields exactly the page ranges the tree had when the
+snapshot was taken (while the tree itself has moved on: its serialisation is unavailable until the
+next hash request, C02). -/
+theorem C16_snapshot_stable {V : Type} (lvl : K → Nat) (hlvl : ∀ k, lvl k < 255) (hc : HashCfg K V D)
+    (s : Served K V D) (hi : Inv lvl hc s.tree) (ops : List (K × V)) :
+    ∃ s₁ s₂, s.take hc = .ok s₁ ∧ s₁.upserts lvl ops = .ok s₂ ∧
+      s₂.snap = s₁.snap ∧
+      (∃ sn, s₂.snap = some sn ∧ sn.iter = .ok (pageRanges hc (s.tree.genRootHash hc))) ∧
+      s₁.tree.serialise = .ok (some (pageRanges hc (s.tree.genRootHash hc))) := by
+  obtain ⟨s₁, h1, ht, hsn, hh⟩ := Served.take_spec lvl hc s hi
+  obtain ⟨s₂, h2, hkeep, -⟩ := Served.upserts_snap lvl hlvl hc ops s₁ hh.inv
+  refine ⟨s₁, s₂, h1, h2, hkeep, ⟨_, hkeep.trans hsn, ?_⟩, ?_⟩
+  · exact Snapshot.iter_ofRanges _ (pageRanges_valid lvl hc _ (ht ▸ hh))
+  · rw [ht] at hh ⊢
+    exact serialise_eq_pageRanges lvl hc _ hh
+
+/-- Non-vacuity (test): a snapshot of two ranges round-trips. -/
+example : (Snapshot.ofRanges ([⟨1, 5, 7⟩, ⟨2, 2, 9⟩] : List (PR Nat Nat))).iter = .ok [⟨1, 5, 7⟩, ⟨2, 2, 9⟩] := by
+  decide
 
 end Mst.Props
